@@ -510,9 +510,9 @@ void warmup() {
 
 struct WarmReg { WarmReg() { sim::register_warmup(warmup); } } warm_reg;
 
-const sim::Scenario kClean = {"C09", "histories", "asan", 40000, 600000, generate_clean, execute, op_name, shrink, nullptr};
-const sim::Scenario kFaulty = {"C09", "histories-faults", "asan", 40000, 600000, generate_faulty, execute, op_name, shrink, nullptr};
-const sim::Scenario kPlainPlace = {"C09", "placement-plain", "plain", 20000, 300000, generate_clean, execute, op_name, shrink, nullptr};
+const sim::Scenario kClean = {"C09", "histories", "asan", 60000, 1200000, generate_clean, execute, op_name, shrink, nullptr};
+const sim::Scenario kFaulty = {"C09", "histories-faults", "asan", 60000, 1200000, generate_faulty, execute, op_name, shrink, nullptr};
+const sim::Scenario kPlainPlace = {"C09", "placement-plain", "plain", 100000, 2000000, generate_clean, execute, op_name, shrink, nullptr};
 const sim::Scenario kLong = {"C09", "long-histories", "plain", 0, 32, generate_long, execute, op_name, shrink, nullptr};
 sim::Registrar r1(kClean), r2(kFaulty), r3(kPlainPlace), r4(kLong);
 
